@@ -32,7 +32,7 @@ package lexer
 //@ pred KeyClean(l *Lexer, hi int) := forall k int :: off(l.input) <= k && k < off(l.input) + hi ==> allowedByte(at(l.input, k))
 //@ pred NameClean(s string) := forall j int :: 0 <= j && j < len(s) ==> allowedByte(s[j])
 
-//@ pred LexInv(l *Lexer) := l != nil && l.len == len(l.input) && l.pos <= l.len && len(l.input) < 4294967296 && l.MetricPool != nil
+//@ pred LexInv(l *Lexer) := l != nil && l.len == len(l.input) && l.pos <= l.len && len(l.input) < 4294967296 && l.MetricPool != nil && 0 <= l.MetricPool.estimatedTags && l.MetricPool.estimatedTags <= 1000000
 
 //@ pred StateReq(f stateFn, l *Lexer) := (needM(f) ==> l.m != nil) && (needE(f) ==> l.e != nil) && (startZero(f) ==> l.start == 0) && (afterSep(f) ==> l.start < l.pos) && (startOK(f) ==> l.start <= l.pos) && (isBound(f) ==> boundLexer(f) == l) && (named(f) ==> len(l.m.Name) > 0 && (l.namespace == "" ==> NameClean(l.m.Name))) && (startZero(f) && afterSep(f) ==> KeyClean(l, l.pos - 1)) && (startZero(f) && !afterSep(f) ==> l.pos == 0) && (typed(f) ==> 1 <= l.m.Type && l.m.Type <= 4) && (blank(f) ==> l.m == nil)
 
@@ -63,7 +63,7 @@ package lexer
 //@   ensures  result == nil ==> Done(l)
 //@   ensures  l.MetricPool == old(l.MetricPool) && l.namespace == old(l.namespace)
 //@   ensures  Owned(l, old(l.m), old(l.e), old(base(l.tags)), old(base(l.input)))
-//@   modifies l.*, l.input[*], l.m.*, l.e.*, l.tags[*]
+//@   modifies l.*, l.input[*], l.m.*, l.e.*, l.tags[*], l.MetricPool.p
 
 //@ functype uintHandler(l, value) sig func(*Lexer, uint64) stateFn
 //@   floats ieee
@@ -74,7 +74,7 @@ package lexer
 //@   ensures  result == nil ==> Done(l)
 //@   ensures  l.MetricPool == old(l.MetricPool) && l.namespace == old(l.namespace)
 //@   ensures  Owned(l, old(l.m), old(l.e), old(base(l.tags)), old(base(l.input)))
-//@   modifies l.*, l.input[*], l.m.*, l.e.*, l.tags[*]
+//@   modifies l.*, l.input[*], l.m.*, l.e.*, l.tags[*], l.MetricPool.p
 
 //@ func (*Lexer).next
 //@   requires LexInv(l)
@@ -89,7 +89,7 @@ package lexer
 // What it returns is newly allocated (or comes unshared from the pool).
 //@ func (*Lexer).Run
 //@   floats ieee
-//@   requires l != nil && l.MetricPool != nil && len(input) < 4294967296
+//@   requires l != nil && l.MetricPool != nil && 0 <= l.MetricPool.estimatedTags && l.MetricPool.estimatedTags <= 1000000 && len(input) < 4294967296
 //@   ensures  l.MetricPool == old(l.MetricPool)
 //@   ensures  result2 == nil ==> result0 != nil || result1 != nil
 //@   ensures  [W] result2 == nil && result0 != nil ==> len(result0.Name) > 0
@@ -105,7 +105,7 @@ package lexer
 //@   loop 1 invariant LexInv(l) && (state != nil ==> StateReq(state, l)) && (state == nil ==> Done(l)) && l.MetricPool == old(l.MetricPool) && l.namespace == namespace
 //@   loop 1 invariant TagsOK(l.tags) && RateOK(l)
 //@   loop 1 invariant (l.m == nil || fresh(l.m)) && (l.e == nil || fresh(l.e)) && (base(l.tags) == 0 || fresh(base(l.tags))) && base(l.input) == base(input)
-//@   modifies l.*, input[*]
+//@   modifies l.*, input[*], l.MetricPool.p
 
 //@ func lexSpecial
 //@   label named(self) == false && typed(self) == false && blank(self)
